@@ -29,7 +29,15 @@ func resynSexp(re *syntax.Regexp) string {
 		}
 		switch re.Op {
 		case syntax.OpLiteral:
-			b.open(); b.atom(1); b.sp(); b.boolean(fold); b.sp(); b.text(string(re.Rune)); b.close()
+			// the runes as the syntax tree holds them (string(re.Rune) would turn a surrogate into U+FFFD)
+			b.open(); b.atom(1); b.sp(); b.boolean(fold); b.sp(); b.open()
+			for i, r := range re.Rune {
+				if i > 0 {
+					b.sp()
+				}
+				b.atom(int64(r))
+			}
+			b.close(); b.close()
 		case syntax.OpCharClass:
 			b.open(); b.atom(2); b.sp(); b.boolean(fold); b.sp(); b.open()
 			for i := 0; i+1 < len(re.Rune); i += 2 {
@@ -157,6 +165,10 @@ var c11Patterns = []string{
 	// small negated classes: what is left includes the line feed; single folded letters with three case variants
 	"^[^\\S]$", "^[^\\S\\t]$", "^a[^\\S ]$", "^[^\\x00-\\x09\\x0b-\\x{10FFFF}]$", "^[^\\S]b$", "(?i)^s$", "(?i)^k$", "^(?i:s)$", "^[sS]$", "^[kK]$", "(?i)^ǅ$", "^[^\\D1-9]$",
 	// class members and single-rune alternatives in U+0080..U+00FF and just above; doubled and inner anchors
+	// counted repetitions of a group that puts a class or an alternation next to a literal (Simplify makes the copies
+	// share one node); surrogates, which have no string form
+	"^(?:[ab]x){2}$", "^(?:x[ab]){2}y$", "^(?:(?:ab|c)-){2}$", "^(?:[ab]x){3}$", "^(?:a|b){2}$", "^([ab]x){2}(c|d)$", "^(?:x[ab]y){2,2}$", "^(?:[ab]){2}[cd]$",
+	"^[\\x{D800}-\\x{D801}]$", "^(\\x{D800}|ab)$", "^a[\\x{DFFF}b]$", "^\\x{D800}$", "^[\\x{D7FF}-\\x{D800}]$", "^[\\x{DFFF}-\\x{E000}]$", "^a\\x{DC00}b$", "^[\\x{10FFFF}]$",
 	"^[éè]$", "^(ü|ö)$", "^[\\x{80}-\\x{82}]$", "^[\\x{FE}-\\x{101}]$", "^a[ÿĀ]$", "^[é]$", "^a$$", "^^a$", "^a^$", "^$a$", "^a$b$", "^(a$)$",
 }
 
@@ -266,7 +278,7 @@ func propC11(o *out, r *rng, thorough bool) {
 		}
 	}
 	// generated regexes from literals, classes, groups, alternation, repetition, anchors and flags
-	atoms := []string{"a", "b", "ab", "[ab]", "[a-c]", "(a|b)", "(ab|c)", "(a)", "a?", "a+", "a*", ".", "\\d", "[0-9]", "(?i:a)", "", "A", "\\n", "a{2}", "(a|b|c)", "[^a]", "\\b", "((?i)a)", "((?i:b))", "((?i)ab)", "[^\\s\\S]", "(a(?i)b)"}
+	atoms := []string{"(?:[ab]x){2}", "(?:x[ab]){2}", "(?:a|bc){2}", "[\\x{D800}a]", "a", "b", "ab", "[ab]", "[a-c]", "(a|b)", "(ab|c)", "(a)", "a?", "a+", "a*", ".", "\\d", "[0-9]", "(?i:a)", "", "A", "\\n", "a{2}", "(a|b|c)", "[^a]", "\\b", "((?i)a)", "((?i:b))", "((?i)ab)", "[^\\s\\S]", "(a(?i)b)"}
 	pre := []string{"^", "^", "^", "", "(?m)^", "(?i)^", "\\A", "(?m:^)", "^(", "(?s)^"}
 	post := []string{"$", "$", "$", "", "(?m:$)", "\\z", ")$"}
 	n := 600
